@@ -434,6 +434,10 @@ func init() {
 		"encoding/binary.littleEndian.Uint32":    byteOrderGet(4),
 		"encoding/binary.littleEndian.Uint64":    byteOrderGet(8),
 		// ctx.Err(): a deterministic function of the context (nil or the cancellation error)
+		// derived contexts: a new context value and a cancel function (an opaque function value)
+		"context.WithTimeout":  {pure: false, fn: derivedContext},
+		"context.WithCancel":   {pure: false, fn: derivedContext},
+		"context.WithDeadline": {pure: false, fn: derivedContext},
 		"context.Context.Err": {pure: true, fn: func(fv *FuncVerifier, call *ast.CallExpr, args []Term, st *State) []Term {
 			fv.u.declare("fun:ctx_err", "(declare-fun ctx_err (Int) Int)\n(assert (forall ((c Int)) (>= (ctx_err c) 0)))")
 			c := args[0]
@@ -620,6 +624,12 @@ func init() {
 	}
 	// the ignore list must not shadow the error models
 	delete(ignoredFuncs, "fmt.Errorf")
+}
+
+func derivedContext(fv *FuncVerifier, call *ast.CallExpr, args []Term, st *State) []Term {
+	c := fv.u.freshConst("ctx", &Sort{Name: "Int", Kind: KOpaque})
+	st.assume(mk(sortBool, "(>= %s 0)", c.S))
+	return []Term{c, {}}
 }
 
 // ---------------------------------------------------------------- range over maps
